@@ -187,8 +187,18 @@ def run(ctx):
         for n in walk_own(top.node):
             if isinstance(n, ast.Assign) and norm(n.targets[0]) == "attriter":
                 v = n.value
-                good = isinstance(v, ast.BoolOp) and isinstance(v.op, ast.Or) and norm(v.values[0]) == "self.attriter" and isinstance(v.values[1], ast.Lambda) \
-                    and norm(v.values[1].body) == v.values[1].args.args[0].arg
+                def _identity(e):
+                    if isinstance(e, ast.Lambda):
+                        return len(e.args.args) == 1 and norm(e.body) == e.args.args[0].arg
+                    if isinstance(e, ast.Name):
+                        r_ = p.resolve_name(top.module, e.id)
+                        if r_ is not None and r_[0] == "func":
+                            from ..model import strip_doc
+                            b_ = strip_doc(r_[1].node.body)
+                            return len(r_[1].posparams) == 1 and len(b_) == 1 and isinstance(b_[0], ast.Return) and norm(b_[0].value) == r_[1].posparams[0]
+                    return False
+                good = isinstance(v, ast.BoolOp) and isinstance(v.op, ast.Or) and len(v.values) == 2 and norm(v.values[0]) == "self.attriter" \
+                    and _identity(v.values[1])
                 if good:
                     ctx.inst("X3", top, n, "attriter option or identity")
                 else:
@@ -328,6 +338,28 @@ def run(ctx):
         ctx.inst("X5", top, tc[0], "import_ delegates with the data unchanged and no parent")
     else:
         ctx.viol("X5", top, top.node, "import_ does not return self.__import(data)", construct="import_: delegation")
+    # ---------------------------------------------------------------- X6
+    for cname in ("Node", "AnyNode"):
+        init = p.func(cname, "__init__")
+        ctx.touch(init)
+        kw = init.node.args.kwarg.arg if init.node.args.kwarg else None
+        if kw is None:
+            ctx.viol("X6", init, init.node, "%s.__init__ no longer accepts arbitrary keyword attributes" % cname, construct="%s.__init__ kwargs" % cname)
+            continue
+        direct = [c for c in walk_own(init.node) if isinstance(c, ast.Call) and isinstance(c.func, ast.Attribute) and c.func.attr == "update"
+                  and norm(c.func.value) in ("%s.__dict__" % init.selfname, "vars(%s)" % init.selfname) and [norm(a) for a in c.args] == [kw]]
+        via_setattr = [c for c in walk_own(init.node) if isinstance(c, ast.Call) and norm(c.func) in ("setattr", "object.__setattr__")
+                       and c.args and norm(c.args[0]) == init.selfname]
+        item = [n_ for n_ in walk_own(init.node) if isinstance(n_, ast.Subscript) and isinstance(n_.ctx, ast.Store)
+                and norm(n_.value) == "%s.__dict__" % init.selfname]
+        if via_setattr:
+            ctx.viol("X6", init, via_setattr[0], "keyword attributes are stored with setattr(): names that coincide with the read-only "
+                     "navigation properties (size, path, depth, ...) are rejected, so such attribute dictionaries no longer import")
+        elif direct or item:
+            ctx.inst("X6", init, (direct or item)[0], "keyword attributes go straight into the instance dict (any key is storable)")
+        else:
+            ctx.viol("X6", init, init.node, "keyword attributes are not stored in the instance dict", construct="%s.__init__: kwargs not stored" % cname)
+    ctx.floor("X6", 2)
     rule_init_stores(ctx, "DictExporter", rule="X3")
     rule_init_stores(ctx, "DictImporter", rule="X5")
     rule_optint_truthiness(ctx, typer, {DE, DI}, rule="X3")
